@@ -71,6 +71,14 @@ func classify(out string) string {
 // (sat/unsat) wins. With all=true every solver is run to completion and all
 // results are returned (thorough tier).
 func raceSolvers(dir, name, smt string, timeoutS int, all bool, only []string) (solverRes, []solverRes) {
+	// most obligations are decided by the newest z3 within a fraction of a second: give it a
+	// short head start alone and race all three only for what it leaves undecided (the
+	// machine is CPU-bound when 16 workers race three solvers each)
+	if !all && len(only) == 0 && timeoutS > 2 {
+		if r, rs := raceSolvers(dir, name+"_first", smt, 2, false, []string{solvers[0].name}); r.Status == "sat" || r.Status == "unsat" {
+			return r, rs
+		}
+	}
 	ctx, cancel := context.WithCancel(context.Background())
 	defer cancel()
 	type r struct{ res solverRes }
